@@ -28,8 +28,11 @@ def gen_cascade(rnd, n=None, mapped=True):
     produced = []          # names
     tags = ["cascade%d" % n]
     consumed = {}
+    user_inputs = []
+    shared_input = False
     RP = list(pick_pool(rnd))[:4]
     for i in range(n):
+        used_here = set()
         out = OUTS[i] if i < n - 1 else "Z"
         # inputs from earlier Einsums
         prev = []
@@ -65,16 +68,30 @@ def gen_cascade(rnd, n=None, mapped=True):
             cover = set(r for p in slots[t] for r in decl[p])
             nf = rnd.randint(0 if facs else 1, 2)
             for f in range(nf):
+                # a user input may be read by several Einsums (each tensor once per Einsum)
+                olds = [x for x in user_inputs if x not in used_here and decl[x] and
+                        all(r in ranks for r in decl[x])]
+                if olds and rnd.random() < 0.35:
+                    name = rnd.choice(olds)
+                    used_here.add(name)
+                    facs.append(_acc(name, decl[name]))
+                    cover |= set(decl[name])
+                    shared_input = True
+                    continue
                 k = rnd.randint(1, len(ranks))
                 fr = rnd.sample(ranks, k)
                 name = next(fresh)
                 decl[name] = fr
+                user_inputs.append(name)
+                used_here.add(name)
                 facs.append(_acc(name, fr))
                 cover |= set(fr)
             missing = [r for r in ranks if r not in cover]
             if missing:
                 name = next(fresh)
                 rnd.shuffle(missing)
+                user_inputs.append(name)
+                used_here.add(name)
                 decl[name] = missing
                 facs.append(_acc(name, missing))
             rnd.shuffle(facs)
@@ -90,6 +107,8 @@ def gen_cascade(rnd, n=None, mapped=True):
         produced.append(out)
     if any(v > 1 for v in consumed.values()):
         tags.append("consumed-twice")
+    if shared_input:
+        tags.append("input-shared-by-einsums")
     if any(not decl[p] for p in produced[:-1]):
         tags.append("rank0-intermediate")
     spec = Spec(decl, exprs, rank_order=random_rank_orders(rnd, decl, p=0.6), tags=tags)
